@@ -216,8 +216,8 @@ func slotInfixFn(p *Parser, left ast.Expression) ast.Expression { return nil }
 //@   ensures [measure@C11] parserMeasure(p) <= old(parserMeasure(p))
 //@   termination [term@C11] parserMeasure(p)
 
-// Errors are reported at six sites only (ExpectToken, ExpectSemicolonASI -- the one mode-dependent site --, the unclosed
-// block, the missing prefix function, the two numeric conversions); every other parse function reports none of its own,
+// Errors are reported at seven sites only (ExpectToken, ExpectSemicolonASI -- the one mode-dependent site --, the unclosed
+// block, the missing prefix function, the two numeric conversions, checkAssignmentTarget); every other parse function reports none of its own,
 // so a parser mode cannot come to matter anywhere else.
 //@ group errorSites
 //@   ensures [error.sites@C13,C11] ncalls("(*Parser).AddError") == 0 && ncalls("(*Parser).AddErrorAtToken") == 0
@@ -603,19 +603,40 @@ func lemma_parseFrame_trans(p *Parser) {
 //@   ensures [node@C01,C07,C08,C15] isType[*ast.NullLiteral](result) && !isNil(result) && eq(result.(*ast.NullLiteral).Token, old(p.CurrentToken))
 //@   ensures [no-token@C01] ncalls("(*Parser).NextToken") == 0 && lexer.LexPos(p.lexer) == old(lexer.LexPos(p.lexer))
 
+// nonTarget: expressions of the core forms that ECMAScript never accepts on the left of an assignment or under ++ / --
+// (13.15.1, 13.4.1: an early error unless the operand is an identifier reference, a member access or a pattern).
+func nonTarget(e ast.Expression) bool {
+	return isType[*ast.IntegerLiteral](e) || isType[*ast.FloatLiteral](e) || isType[*ast.StringLiteral](e) || isType[*ast.MultiStringLiteral](e) ||
+		isType[*ast.BooleanLiteral](e) || isType[*ast.NullLiteral](e) || isType[*ast.BinaryExpression](e) || isType[*ast.UnaryExpression](e) ||
+		isType[*ast.PostfixExpression](e) || isType[*ast.CallExpression](e) || isType[*ast.AssignmentExpression](e) ||
+		isType[*ast.CompoundAssignmentExpression](e) || isType[*ast.FunctionExpression](e)
+}
+
+// The seventh error site (mode-independent): an operand that cannot be assigned to is reported at the operator.
+//@ func (p *Parser) checkAssignmentTarget(operand, operator)
+//@   props C12 C11 C13
+//@   requires [p] p != nil
+//@   requires [range.token] lexer.LexTok(operator)
+//@   modifies p.errors
+//@   ensures [invalid@C12] implies(nonTarget(operand), len(p.errors) == len(old(p.errors))+1 && isPrefixErr(old(p.errors), p.errors) && p.errors[len(old(p.errors))].Range == Range{Start: operator.Start, End: operator.End})
+//@   ensures [valid@C12,C13] implies(!nonTarget(operand), len(p.errors) == len(old(p.errors)) && isPrefixErr(old(p.errors), p.errors))
+//@   ensures [modes@C13] ncalls("(*Parser).AddErrorAtToken") == ite(nonTarget(operand), 1, 0)
+
 //@ func (p *Parser) ParseUnaryExpression()
-//@   props C11 C16 C02 C01 C13
+//@   props C11 C16 C02 C01 C13 C12
 //@   use parseFrame ctxStable exprResult viaSlot errorSites atToken
 //@   rank 45
 //@   ensures [wf@C11] implies(len(p.errors) == len(old(p.errors)), !isNil(result.(*ast.UnaryExpression).Right))
+//@   ensures [target@C12] ncalls("(*Parser).checkAssignmentTarget") == ite(old(p.CurrentToken.Type) == token.INCREMENT || old(p.CurrentToken.Type) == token.DECREMENT, 1, 0) && implies(ncalls("(*Parser).checkAssignmentTarget") == 1, callArg[ast.Expression]("(*Parser).checkAssignmentTarget", 0, 1) == callResult[ast.Expression]("slotExprFn", 0) && eq(callArg[token.Token]("(*Parser).checkAssignmentTarget", 0, 2), old(p.CurrentToken)))
 //@   ensures [operand.level@C02] ncalls("(*Parser).NextToken") == 1 && ncalls("slotExprFn") == 1 && callOrder("(*Parser).NextToken", 0, "slotExprFn", 0) && callArg[int]("slotExprFn", 0, 1) == UNARY && callArg[*Parser]("slotExprFn", 0, 0) == p
 //@   ensures [node@C01,C08,C15] isType[*ast.UnaryExpression](result) && !isNil(result) && eq(result.(*ast.UnaryExpression).Token, old(p.CurrentToken)) && result.(*ast.UnaryExpression).Operator == old(p.CurrentToken.Literal) && result.(*ast.UnaryExpression).Right == callResult[ast.Expression]("slotExprFn", 0)
 
 //@ func (p *Parser) ParsePostfixExpression(left)
-//@   props C11 C16 C01 C02 C13
+//@   props C11 C16 C01 C02 C13 C12
 //@   use parseFrame ctxStable exprResult infixResult errorSites atToken
 //@   rank 40
 //@   ensures [wf@C11] implies(!isNil(left), !isNil(result.(*ast.PostfixExpression).Left))
+//@   ensures [target@C12] ncalls("(*Parser).checkAssignmentTarget") == 1 && callArg[ast.Expression]("(*Parser).checkAssignmentTarget", 0, 1) == left && eq(callArg[token.Token]("(*Parser).checkAssignmentTarget", 0, 2), old(p.CurrentToken))
 //@   ensures [node@C01,C08,C15] isType[*ast.PostfixExpression](result) && !isNil(result) && eq(result.(*ast.PostfixExpression).Token, old(p.CurrentToken)) && result.(*ast.PostfixExpression).Operator == old(p.CurrentToken.Literal) && result.(*ast.PostfixExpression).Left == left
 //@   ensures [no-token@C02] ncalls("(*Parser).NextToken") == 0 && ncalls("slotExprFn") == 0 && lexer.LexPos(p.lexer) == old(lexer.LexPos(p.lexer))
 
@@ -670,18 +691,20 @@ func lemma_parseFrame_trans(p *Parser) {
 
 // Assignment is right associative: the value is parsed from the lowest level again.
 //@ func (p *Parser) ParseAssignmentExpression(left)
-//@   props C11 C16 C02 C01 C13
+//@   props C11 C16 C02 C01 C13 C12
 //@   use parseFrame ctxStable exprResult infixResult errorSites atToken
 //@   rank 45
 //@   ensures [wf@C11] implies(len(p.errors) == len(old(p.errors)) && !isNil(left), !isNil(result.(*ast.AssignmentExpression).Left) && !isNil(result.(*ast.AssignmentExpression).Value))
+//@   ensures [target@C12] ncalls("(*Parser).checkAssignmentTarget") == 1 && callArg[ast.Expression]("(*Parser).checkAssignmentTarget", 0, 1) == left && eq(callArg[token.Token]("(*Parser).checkAssignmentTarget", 0, 2), old(p.CurrentToken))
 //@   ensures [operand.level@C02,C03] ncalls("(*Parser).NextToken") == 1 && ncalls("(*Parser).ParseExpression") == 1 && ncalls("slotExprFn") == 0 && callOrder("(*Parser).NextToken", 0, "(*Parser).ParseExpression", 0)
 //@   ensures [node@C01,C08,C15] isType[*ast.AssignmentExpression](result) && !isNil(result) && eq(result.(*ast.AssignmentExpression).Token, old(p.CurrentToken)) && result.(*ast.AssignmentExpression).Left == left && result.(*ast.AssignmentExpression).Value == callResult[ast.Expression]("(*Parser).ParseExpression", 0)
 
 //@ func (p *Parser) ParseCompoundAssignmentExpression(left)
-//@   props C11 C16 C02 C01 C13
+//@   props C11 C16 C02 C01 C13 C12
 //@   use parseFrame ctxStable exprResult infixResult errorSites atToken
 //@   rank 45
 //@   ensures [wf@C11] implies(len(p.errors) == len(old(p.errors)) && !isNil(left), !isNil(result.(*ast.CompoundAssignmentExpression).Left) && !isNil(result.(*ast.CompoundAssignmentExpression).Value))
+//@   ensures [target@C12] ncalls("(*Parser).checkAssignmentTarget") == 1 && callArg[ast.Expression]("(*Parser).checkAssignmentTarget", 0, 1) == left && eq(callArg[token.Token]("(*Parser).checkAssignmentTarget", 0, 2), old(p.CurrentToken))
 //@   ensures [operand.level@C02,C03] ncalls("(*Parser).NextToken") == 1 && ncalls("(*Parser).ParseExpression") == 1 && ncalls("slotExprFn") == 0 && callOrder("(*Parser).NextToken", 0, "(*Parser).ParseExpression", 0)
 //@   ensures [node@C01,C08,C15] isType[*ast.CompoundAssignmentExpression](result) && !isNil(result) && eq(result.(*ast.CompoundAssignmentExpression).Token, old(p.CurrentToken)) && result.(*ast.CompoundAssignmentExpression).Left == left && result.(*ast.CompoundAssignmentExpression).Value == callResult[ast.Expression]("(*Parser).ParseExpression", 0)
 //@   ensures [operator@C01] implies(old(p.CurrentToken.Type) == token.PLUS_ASSIGN, result.(*ast.CompoundAssignmentExpression).Operator == "+") && implies(old(p.CurrentToken.Type) == token.MINUS_ASSIGN, result.(*ast.CompoundAssignmentExpression).Operator == "-")
@@ -884,7 +907,7 @@ func tablesSeeded(p *Parser) bool {
 }
 
 //@ func newWithOptions(l, opts)
-//@   props C04 C05 C11 C13 C14 C16
+//@   props C04 C05 C11 C13 C14 C16 C02
 //@   requires [lexer] l != nil && lexer.LexInv(l)
 //@   modifies l.position, l.readPosition, l.CurrentChar, l.Line, l.Column, l.hadNewlineBefore, l.leadingComments, l.carriedComments
 //@   loop 1 before [order.start@C04] i == len(opts.stmtInterceptors)-1
